@@ -252,6 +252,30 @@ fn literal_cases(max_entries: usize) -> Vec<Case> {
 /// names that are not text, property values shared with other holders, interpolated names
 fn extra_cases() -> Vec<Case> {
     let mut v = vec![];
+    // op-assignment reads the property first, whatever the right operand is: every operator with
+    // the operands that would leave a number unchanged, on missing and ill-typed properties
+    for op in ["+=", "-=", "*=", "/=", "%="] {
+        for rhs in ["0", "1", "-1", "\"\"", "[]", "{}", "z", "null"] {
+            for (decl, target) in [
+                ("o := {\"n\": 5}", "o.missing"), ("o := {\"n\": 5}", "o[\"missing\"]"), ("o := {\"n\": 5}", "o[k]"), ("o := {\"n\": \"s\"}", "o.n"), ("o := {\"n\": [1]}", "o[\"n\"]"),
+                ("o := {\"n\": null}", "o.n"), ("o := {\"n\": {\"m\": 5}}", "o.n.q"), ("o := {\"n\": 5}", "o.n"), ("o := {\"n\": true}", "o.n"), ("o := {}", "o[\"\"]"),
+            ] {
+                v.push(Case::new(format!("{}\nk := \"other\"\nz := 0\nprint(\"pre\")\n{} {} {}\nprint(\"after\")\nprint(o)\n", decl, target, op, rhs), 601, format!("{} {} {} on {}", target, op, rhs, decl)));
+            }
+        }
+    }
+    // a loop over an object walks the properties it had when the loop began, with the values they
+    // had then
+    for prog in [
+        "stock := {\"apples\": 3, \"pears\": 5, \"total\": 0}\nfor [k, v] in stock {\nif k != \"total\" {\nstock.total += v\n}\nprint([k, v])\n}\nprint(stock)\n",
+        "o := {\"a\": 1, \"b\": 2, \"c\": 3}\nfor [k, v] in o {\no.c = 30\no.b += 10\no[\"a\"] = \"x\"\nprint([k, v])\n}\nprint(o)\n",
+        "o := {\"a\": [1], \"b\": [2]}\nfor [k, v] in o {\no.b = [20]\no.a[0] = 9\nprint([k, v])\n}\nprint(o)\n",
+        "o := {\"a\": 1, \"b\": 2}\nseen := []\nfor [k, v] in o {\nfor [k2, v2] in o {\no[k2] = v2 * 10\n}\nseen += [[k, v]]\n}\nprint(seen)\nprint(o)\n",
+        "o := {\"f\": fn () {\nreturn 1\n}, \"g\": 2}\nfor [k, v] in o {\no.g = fn () {\nreturn 3\n}\nprint([k, v->type()])\n}\n",
+        "o := {\"a\": 1, \"b\": 2}\np := o\nfor [k, v] in o {\np.b = 99\np.c = 5\nprint([k, v])\n}\nfor [k, v] in p {\nprint([k, v])\n}\n",
+    ] {
+        v.push(Case::new(prog.to_string(), 601, "a loop over an object whose body writes to that object".to_string()));
+    }
     // property names cut out of multi-byte characters: two different byte strings are two
     // different names (or both are rejected), never one
     let frags = ["\"é\"[0]", "\"é\"[1]", "\"ñ\"[1]", "\"€\"[1:3]", "\"€\"[0:2]", "\"a\"", "\"é\""];
